@@ -117,3 +117,113 @@ package hook
 //@   let interval := ite(h.Config.Settings != nil, h.Config.Settings.ExecutionMinInterval, 0)
 //@   let burst := ite(h.Config.Settings != nil, h.Config.Settings.ExecutionBurst, 0)
 //@   ensures [limiter-from-settings] result1 == nil ==> h.RateLimiter == rate.NewLimiter(ite(interval != 0, rate.Every(interval), rate.Inf), ite(burst != 0, burst, 1))
+
+// ---- C12: one hook execution: files in, process, outputs read back, temporary files removed ----
+
+// Ghost view of the temporary directory: fsExists[p] = "file p exists". Assumed: a prepare
+// function that returns an error has left no file behind; os.Remove removes the file; names
+// carry a fresh uuid (a successful prepare returns a name that did not exist).
+//@ ghost fsExists map[string]bool
+//@ ghost ctxFileContent bctx.BindingContextList
+//@ ghost nProcess int
+//@ ghost lastExitErr error
+//@ ghost nOutputsRead int
+//@ ghost lastRefreshIn []bctx.BindingContext
+//@ ghost lastRefreshOut []bctx.BindingContext
+
+//@ trusted func (*Hook).prepareBindingContextJsonFile
+//@   modifies fsExists, ctxFileContent
+//@   ghostset ctxFileContent := context
+//@   ensures result1 != nil ==> result0 == "" && forall(p, string, fsExists[p] == old(fsExists[p]))
+//@   ensures result1 == nil ==> result0 != "" && !old(fsExists[result0]) && fsExists[result0] && forall(p, string, p != result0 ==> fsExists[p] == old(fsExists[p]))
+//@ trusted func (*Hook).prepareMetricsFile
+//@   modifies fsExists
+//@   ensures result1 != nil ==> result0 == "" && forall(p, string, fsExists[p] == old(fsExists[p]))
+//@   ensures result1 == nil ==> result0 != "" && !old(fsExists[result0]) && fsExists[result0] && forall(p, string, p != result0 ==> fsExists[p] == old(fsExists[p]))
+//@ trusted func (*Hook).prepareAdmissionResponseFile
+//@   modifies fsExists
+//@   ensures result1 != nil ==> result0 == "" && forall(p, string, fsExists[p] == old(fsExists[p]))
+//@   ensures result1 == nil ==> result0 != "" && !old(fsExists[result0]) && fsExists[result0] && forall(p, string, p != result0 ==> fsExists[p] == old(fsExists[p]))
+//@ trusted func (*Hook).prepareConversionResponseFile
+//@   modifies fsExists
+//@   ensures result1 != nil ==> result0 == "" && forall(p, string, fsExists[p] == old(fsExists[p]))
+//@   ensures result1 == nil ==> result0 != "" && !old(fsExists[result0]) && fsExists[result0] && forall(p, string, p != result0 ==> fsExists[p] == old(fsExists[p]))
+//@ trusted func (*Hook).prepareObjectPatchFile
+//@   modifies fsExists
+//@   ensures result1 != nil ==> result0 == "" && forall(p, string, fsExists[p] == old(fsExists[p]))
+//@   ensures result1 == nil ==> result0 != "" && !old(fsExists[result0]) && fsExists[result0] && forall(p, string, p != result0 ==> fsExists[p] == old(fsExists[p]))
+
+//@ package os
+//@ trusted func Remove
+//@   modifies hook.fsExists
+//@   ensures !hook.fsExists[name] && forall(p, string, p != name ==> hook.fsExists[p] == old(hook.fsExists[p]))
+// the hook's output files are read only after the process has exited with status zero
+//@ trusted func ReadFile
+//@   requires [outputs-read-only-after-zero-exit] hook.nProcess > 0 && hook.lastExitErr == nil
+//@   modifies hook.nOutputsRead
+//@   ghostset hook.nOutputsRead := hook.nOutputsRead + 1
+//@ trusted func Environ
+//@   modifies nothing
+//@ package github.com/flant/shell-operator/pkg/executor
+//@ trusted func NewExecutor
+//@   modifies nothing
+//@   ensures result != nil
+//@ trusted func (*Executor).WithLogProxyHookJSON
+//@   modifies nothing
+//@   ensures result == e
+//@ trusted func (*Executor).WithLogProxyHookJSONKey
+//@   modifies nothing
+//@   ensures result == e
+//@ trusted func (*Executor).WithLogger
+//@   modifies nothing
+//@   ensures result == e
+//@ trusted func (*Executor).RunAndLogLines
+//@   modifies hook.nProcess, hook.lastExitErr
+//@   ghostset hook.nProcess := hook.nProcess + 1
+//@   ghostset hook.lastExitErr := result1
+//@ package github.com/flant/shell-operator/pkg/metric_storage/operation
+//@ trusted func MetricOperationsFromFile
+//@   requires [outputs-read-only-after-zero-exit] hook.nProcess > 0 && hook.lastExitErr == nil
+//@   modifies hook.nOutputsRead
+//@   ghostset hook.nOutputsRead := hook.nOutputsRead + 1
+//@ package github.com/flant/shell-operator/pkg/webhook/admission
+//@ trusted func ResponseFromFile
+//@   requires [outputs-read-only-after-zero-exit] hook.nProcess > 0 && hook.lastExitErr == nil
+//@   modifies hook.nOutputsRead
+//@   ghostset hook.nOutputsRead := hook.nOutputsRead + 1
+//@ package github.com/flant/shell-operator/pkg/webhook/conversion
+//@ trusted func ResponseFromFile
+//@   requires [outputs-read-only-after-zero-exit] hook.nProcess > 0 && hook.lastExitErr == nil
+//@   modifies hook.nOutputsRead
+//@   ghostset hook.nOutputsRead := hook.nOutputsRead + 1
+//@ package github.com/flant/shell-operator/pkg/hook/controller
+//@ trusted func (*HookController).UpdateSnapshots
+//@   modifies hook.lastRefreshIn, hook.lastRefreshOut
+//@   ghostset hook.lastRefreshIn := context
+//@   ghostset hook.lastRefreshOut := result
+//@ package github.com/flant/shell-operator/pkg/hook
+
+// C12: the process is started at most once, after all five files exist; a non-zero exit fails
+// the execution and no output is read; after a zero exit all four outputs are read and any
+// malformed one fails the execution; the binding-context file holds the converted list of the
+// contexts handed in (after the snapshot refresh); unless temporary files are to be kept, no
+// file created by the execution exists when it ends - whatever the outcome.
+// (C18/C04: the run consumes the rate-limit token; ghost trace for the callers.)
+//@ func (*Hook).Run
+//@   prop C12, C18
+//@   requires [rate-limit-token] shell_operator.lastWaitHook == h && shell_operator.lastWaitErr == nil && h != nil
+//@   requires h.HookController != nil && h.Config != nil && (h.Config.Version == "v0" || h.Config.Version == "v1") && nProcess >= 0
+//@   modifies bctx.lastConvIn, bctx.lastConvVersion, bctx.lastConvOut, lastRefreshIn, lastRefreshOut
+//@   modifies shell_operator.nRun, shell_operator.ranContexts, shell_operator.lastWaitHook, shell_operator.lastHookResult, shell_operator.lastHookErr, fsExists, ctxFileContent, nProcess, lastExitErr, nOutputsRead
+//@   ghostset shell_operator.nRun := shell_operator.nRun + 1
+//@   ghostset shell_operator.ranContexts := context
+//@   ghostset shell_operator.lastWaitHook := nil
+//@   ghostset shell_operator.lastHookResult := result0
+//@   ghostset shell_operator.lastHookErr := result1
+//@   ensures [result]            result1 == nil ==> result0 != nil
+//@   ensures [one-process]       nProcess == old(nProcess) || nProcess == old(nProcess) + 1
+//@   ensures [non-zero-exit-fails] nProcess == old(nProcess) + 1 && lastExitErr != nil ==> result1 != nil && nOutputsRead == old(nOutputsRead)
+//@   ensures [no-process-fails]  nProcess == old(nProcess) ==> result1 != nil && nOutputsRead == old(nOutputsRead)
+//@   ensures [outputs-all-read]  result1 == nil ==> nProcess == old(nProcess) + 1 && lastExitErr == nil && nOutputsRead == old(nOutputsRead) + 4
+//@   ensures [context-file]      nProcess == old(nProcess) + 1 ==> ctxFileContent == bctx.lastConvOut && bctx.lastConvIn == lastRefreshOut && bctx.lastConvVersion == h.Config.Version && lastRefreshIn == context
+//@   ensures [temp-files-gone]   app.DebugKeepTmpFilesVar != "yes" ==> forall(p, string, fsExists[p] == old(fsExists[p]))
